@@ -366,6 +366,8 @@ pub enum Act {
     /// slave signals pending diagnostics (DH) / reports a transient flag with its next diag reply
     SlaveDiagPending,
     SlaveTransient(u8),
+    /// the application calls enter_operate() again while the request is outstanding
+    EnterOperateInFlight,
 }
 
 #[derive(Clone, Debug, PartialEq, Eq, Hash)]
@@ -374,10 +376,13 @@ pub enum UserAct {
     WriteOutputs(usize, u8),
     RequestDiag(usize),
     AddPending,
+    /// the application asserts the Operate state again (the documented way to force a global
+    /// control broadcast); must not disturb the cycle
+    EnterOperate,
 }
 
 pub fn gen_act(t: &mut Tape, rich: bool) -> Act {
-    match t.weighted(&[10, 3, 3, 4, 1, 1, 2, 1, 1]) {
+    match t.weighted(&[10, 3, 3, 4, 1, 1, 2, 1, 1, 1]) {
         0 => Act::Ok,
         1 => Act::RequestLost,
         2 => Act::ReplyLost,
@@ -402,7 +407,8 @@ pub fn gen_act(t: &mut Tape, rich: bool) -> Act {
         5 => Act::Watchdog,
         6 => Act::UserDiagInFlight,
         7 => Act::SlaveDiagPending,
-        _ => Act::SlaveTransient(t.below(4) as u8),
+        8 => Act::SlaveTransient(t.below(4) as u8),
+        _ => Act::EnterOperateInFlight,
     }
 }
 
@@ -632,6 +638,9 @@ impl DpRig {
                     self.master.get_mut(h).request_diagnostics();
                 }
             }
+            UserAct::EnterOperate => {
+                self.master.enter_operate();
+            }
             UserAct::AddPending => {
                 if let Some(k) = (0..self.cfg.pers.len()).find(|k| self.handle_of(*k).is_none()) {
                     let can = match self.cfg.fixed_slots {
@@ -683,7 +692,7 @@ impl DpRig {
     pub fn round(&mut self, act: &Act, dt_us: i64, high_prio_only: bool, oracles: &mut [Box<dyn DpOracle>]) -> Result<bool, Failure> {
         self.now_us += dt_us;
         let now = Instant::from_micros(self.now_us);
-        let mut buf = [0u8; 300];
+        let mut buf = [0xBDu8; 300]; // stale contents, as with the hardware PHYs
         self.callbacks += 1;
         let r = self.master.transmit_telegram(now, &self.fdl, TelegramTx::new(&mut buf), if high_prio_only { HighPrioOnly::Yes } else { HighPrioOnly::No });
         self.take_events(false, oracles)?;
@@ -743,6 +752,10 @@ impl DpRig {
                     _ => self.slaves[k].once_prm_req = true,
                 }
                 reply = self.slaves[k].handle(&req);
+            }
+            Act::EnterOperateInFlight => {
+                reply = self.slaves[k].handle(&req);
+                self.master.enter_operate();
             }
             Act::UserDiagInFlight => {
                 reply = self.slaves[k].handle(&req);
@@ -832,10 +845,11 @@ pub fn gen_history(t: &mut Tape, cfg: &DpCfg, max_fault_rounds: usize, rich: boo
     let np = cfg.pers.len().max(1);
     let mut acts = vec![];
     for _ in 0..n {
-        let user = match t.weighted(&[8, 3, 1, 1]) {
+        let user = match t.weighted(&[8, 3, 1, 1, 1]) {
             1 => UserAct::WriteOutputs(t.below(np as u64) as usize, t.u8()),
             2 => UserAct::RequestDiag(t.below(np as u64) as usize),
             3 => UserAct::AddPending,
+            4 => UserAct::EnterOperate,
             _ => UserAct::None,
         };
         let act = gen_act(t, rich);
